@@ -288,6 +288,57 @@ def check_design(case, acc):
                 problems.append(f"{f!r}: later frame x={xn.tolist()} (evaluation {step + 1} of the same frame object) mapped to {got.tolist()}, expected {want.tolist()}")
                 break
             nd["x"] = nd["x"] * 2 + 1  # the caller edits its frame in place and evaluates it again
+    # histories on one design: good frames, frames the evaluation refuses (column missing / not numeric), training rows again;
+    # common and group-specific matrices, every stateful transform
+    for f in ("y ~ center(x) + scale(x)", "y ~ 1 + (0 + center(x) | g)", "y ~ (scale(x) | g)", "y ~ x + (standardize(x) | g)",
+              "y ~ poly(x, 2)", "y ~ bs(x, df=4)", "y ~ (0 + poly(x, 2) | g)", "y ~ (0 + bs(x, df=3) | g) + center(x)"):
+        acc.calls += 1
+        dm = design_matrices(f, df)
+        mats = [(w, M, np.array(M.design_matrix, dtype=float, copy=True)) for w, M in (("common", dm.common), ("group", dm.group)) if M is not None]
+        m, s = x.mean(), x.std()
+        events = [("good", [10.0, -3.0]), ("rows", [4, 1]), ("missing", None), ("rows", [0, 5, 2]), ("good", [0.5, 7.0]), ("text", None), ("rows", [3, 3]), ("good", [2.0, 2.0])]
+        for step, (kind, arg) in enumerate(events):
+            if kind == "good":
+                nd = pd.DataFrame({"y": [0.0, 0.0], "x": arg, "g": ["a", "b"]})
+            elif kind == "rows":
+                nd = df.iloc[arg].reset_index(drop=True)
+            elif kind == "missing":
+                nd = pd.DataFrame({"y": [0.0, 0.0], "g": ["a", "b"]})
+            else:
+                nd = pd.DataFrame({"y": [0.0, 0.0], "x": ["p", "q"], "g": ["a", "b"]})
+            for which, M, train in mats:
+                acc.calls += 1
+                try:
+                    r = M.evaluate_new_data(nd)
+                except Exception:
+                    continue  # refusing a frame is fine; what matters is the next accepted one
+                if kind in ("missing", "text"):
+                    continue
+                got = np.asarray(r.design_matrix, dtype=float)
+                msg = None
+                if kind == "rows":
+                    if got.shape != train[arg].shape or not np.allclose(got, train[arg], rtol=1e-9, atol=1e-12):
+                        msg = f"training rows {arg} are not reproduced"
+                else:
+                    xn = np.asarray(arg, dtype=float)
+                    for name in r.terms:
+                        head = name.split("|")[0]
+                        if head not in ("center(x)", "scale(x)", "standardize(x)"):
+                            continue
+                        want = (xn - m) if head == "center(x)" else (xn - m) / s
+                        block = np.asarray(r[name], dtype=float).reshape(len(xn), -1)
+                        if which == "group":
+                            want = np.column_stack([want * (np.array(["a", "b"]) == lvl) for lvl in ("a", "b")])
+                        else:
+                            want = want[:, None]
+                        if block.shape != want.shape or not np.allclose(block, want, rtol=1e-12, atol=1e-12):
+                            msg = f"term {name} for x={arg} is {block.tolist()}, expected {want.tolist()} (training mean {m}, sd {s})"
+                if msg:
+                    problems.append(f"{f!r}: {which} matrix at step {step + 1} of {[e[0] for e in events]}: {msg}")
+                    break
+            else:
+                continue
+            break
     if problems:
         acc.case(case, "MISMATCH")
         acc.violation("center-scale", "design", case, "; ".join(problems[:3]))
